@@ -1775,7 +1775,7 @@ fn tie_mode_port(song: &mut Song) {
             let v = ((bend_from - bend_to) as f32 * (i as f32 / tie_value as f32)) as isize;
             if last_v == v { continue; }
             last_v = v;
-            let bend_event = Event::pitch_bend(timepos, trk!(song).channel, v + 8192);
+            let bend_event = Event::pitch_bend(timepos, trk!(song).channel, value_range(0, v + 8192, 16383));
             trk!(song).events.push(bend_event);
         }
         last_note.v2 = next_event.time - last_note.time;
@@ -1815,13 +1815,14 @@ fn tie_mode_bend(song: &mut Song) {
         }
         // calc pitch range
         // bend value range: -8192 to 8191
-        let note_diff: isize = next_event.v1 - last_note.v1;
+        let note_diff: isize = next_event.v1 - begin_note.v1;
         let bend_event = Event::pitch_bend(
             next_event.time,
             trk!(song).channel,
-            (note_diff as f32 * 8192f32 / bend_range as f32) as isize + 8192,
+            value_range(0, (note_diff as f32 * 8192f32 / bend_range as f32) as isize + 8192, 16383),
         );
         trk!(song).events.push(bend_event);
+        last_note = next_event;
     }
     // write begin note
     begin_note.v2 = lastpos - begin_note.time;
@@ -1867,6 +1868,7 @@ fn tie_mode_alpe(song: &mut Song) {
         event.v2 = last_pos - event.time;
         trk!(song).events.push(event);
     }
+    trk!(song).tie_notes.clear();
 }
 
 fn check_tie_notes(song: &mut Song) {
@@ -1887,6 +1889,16 @@ fn check_tie_notes(song: &mut Song) {
         TieMode::Gate => tie_mode_gate(song),
         TieMode::Alpe => tie_mode_alpe(song),
     };
+}
+
+/// write tied notes that are still pending at the end of the song (ex) "c&"
+pub fn flush_tie_notes(song: &mut Song) {
+    let tmp_cur_track = song.cur_track;
+    for i in 0..song.tracks.len() {
+        song.cur_track = i;
+        check_tie_notes(song);
+    }
+    song.cur_track = tmp_cur_track;
 }
 
 fn exec_note_n(song: &mut Song, t: &Token) {
